@@ -493,6 +493,34 @@ def near_copy_beyond_a_read(W, rec, rng):
                                   f"{(got or b'')[max(0, (where or 0) - 5):(where or 0) + 12]!r} vs {content[max(0, (where or 0) - 5):(where or 0) + 12]!r}; fields {dict(form)!r}", case, monitor="roundtrip")
 
 
+def delimiters_quoted_in_mid_line(W, rec, rng):
+    """Contents that quote the enclosing body's delimiter in the *middle* of a line (a log line about a split upload, a
+    test fixture): "--boundary" followed by a line break, by blanks and a line break, or by "--".  Only a delimiter at the
+    start of a line ends a part; these come back byte for byte, through the encoder/decoder pair and the parser."""
+    M, FP, T, Request, DS = W
+    for boundary in ("b", "foo", rand_boundary(rng), "x" * 70):
+        bnd = boundary.encode()
+        for tail in (b"\r\n", b"\n", b" \t\r\n", b"--", b"--\r\n", b"\r"):
+            for lead in (b"split at ", b"x", b"\r\n-", b"-"):
+                content = lead + b"--" + bnd + tail + b"and went on" + b"\r\nlast line"
+                parts = [("field", "note", None, None, (lead + b"--" + bnd + tail + b"text").decode()), ("file", "up", "log.txt", "text/plain", content), ("field", "after", None, None, "z")]
+                case = {"path": "delimiter-quoted-in-mid-line", "boundary": boundary, "lead": repr(lead), "tail": repr(tail)}
+                rec.case()
+                rec.nontrivial(("mid-line-delimiter", boundary, lead, tail))
+                rec.observe("contents_quoting_the_delimiter_in_mid_line")
+                with rec.guard(case, "C02/mid-line"):
+                    md = DS.MultiDict()
+                    for kind, name, filename, ctype, value in parts:
+                        md.add(name, DS.FileStorage(io.BytesIO(value), filename=filename, name=name, content_type=ctype) if kind == "file" else value)
+                    b2, data = T.encode_multipart(md, boundary=boundary)
+                    form, files = FP.MultiPartParser(buffer_size=rng.choice([7, 64, 64 * 1024])).parse(io.BytesIO(data), b2.encode(), len(data))
+                    got = files["up"].stream.read() if "up" in files else None
+                    # (text fields come back with universal-newline-free str decoding: compare as given)
+                    if got != content or form.get("note") != parts[0][4] or form.get("after") != "z" or len(form) != 2 or len(files) != 1:
+                        rec.violation("C02/encode_multipart:file-payload-differs", f"content {content!r} (boundary {boundary!r}) came back as {got!r}; fields {dict(form)!r}", case, monitor="roundtrip")
+                        return
+
+
 def uploads_that_are_encoded_forms(W, rec, rng):
     """History of the process: an upload whose content was itself produced by the encoder a moment ago (a recorded request
     body attached to a bug report, a form forwarded inside a form), every encoding left to choose its own boundary.  The
@@ -757,6 +785,7 @@ def run(shard, rec, rng):
     if shard["index"] % 4 == 0:
         near_copy_beyond_a_read(W, rec, rng)
         uploads_that_are_encoded_forms(W, rec, rng)
+        delimiters_quoted_in_mid_line(W, rec, rng)
     # ---- random part lists
     for i in range(cfg["random_lists"]):
         boundary = rand_boundary(rng)
